@@ -295,4 +295,7 @@ def run(model, rep):
     # is hashed) must survive rendering, or the string no longer names the digest that was computed
     from pv.handlers import HandlerTable as _HT
     _t = _HT(model)
+    # the cost settings a digest is computed with are those of the hasher it was asked of: using() never writes them to the parent (rule shared with C09)
+    from . import c09 as _c09
+    _c09.rule_ab(model, _Renamed(rep, {"C09.b": "C02.g-using-write-target", "C09.a": "C02.g-using-fresh-subclass"}, "C02.x-"))
     _c07.rule_b(model, _Renamed(rep, {"C07.b": "C02.f-settings-rendered"}, "C02.x-"), _c07._handler_pairs(model, _t), _c07._libpass_pairs(model))   # sha1_crypt, bcrypt_sha256 v2 and scram/pbkdf2 digests are HMAC based
